@@ -494,13 +494,17 @@ size_t ZSTD_seekable_decompress(ZSTD_seekable* zs, void* dst, size_t len, unsign
     do {
         /* check if we can continue from a previous decompress job */
         if (targetFrame != zs->curFrame || offset < zs->decompressedOffset) {
-            zs->decompressedOffset = zs->seekTable.entries[targetFrame].dOffset;
-            zs->curFrame = targetFrame;
+            /* forget the current position first : if anything below fails,
+             * the next call must start from a frame boundary again instead of
+             * continuing from a position that was never reached */
+            zs->curFrame = (U32)-1;
 
             assert(zs->seekTable.entries[targetFrame].cOffset < LLONG_MAX);
             CHECK_IO(zs->src.seek(zs->src.opaque,
                                   (long long)zs->seekTable.entries[targetFrame].cOffset,
                                   SEEK_SET));
+            zs->decompressedOffset = zs->seekTable.entries[targetFrame].dOffset;
+            zs->curFrame = targetFrame;
             zs->in = (ZSTD_inBuffer){zs->inBuff, 0, 0};
             XXH64_reset(&zs->xxhState, 0);
             ZSTD_DCtx_reset(zs->dstream, ZSTD_reset_session_only);
@@ -526,6 +530,7 @@ size_t ZSTD_seekable_decompress(ZSTD_seekable* zs, void* dst, size_t len, unsign
             prevInPos = zs->in.pos;
             toRead = ZSTD_decompressStream(zs->dstream, &outTmp, &zs->in);
             if (ZSTD_isError(toRead)) {
+                zs->curFrame = (U32)-1;   /* do not continue from here */
                 return toRead;
             }
 
@@ -536,6 +541,7 @@ size_t ZSTD_seekable_decompress(ZSTD_seekable* zs, void* dst, size_t len, unsign
             forwardProgress = outTmp.pos - prevOutPos;
             if (forwardProgress == 0) {
                 if (noOutputProgressCount++ > ZSTD_SEEKABLE_NO_OUTPUT_PROGRESS_MAX) {
+                    zs->curFrame = (U32)-1;
                     return ERROR(seekableIO);
                 }
             } else {
@@ -551,6 +557,7 @@ size_t ZSTD_seekable_decompress(ZSTD_seekable* zs, void* dst, size_t len, unsign
                 if (zs->seekTable.checksumFlag &&
                     (XXH64_digest(&zs->xxhState) & 0xFFFFFFFFU) !=
                             zs->seekTable.entries[targetFrame].checksum) {
+                    zs->curFrame = (U32)-1;
                     return ERROR(corruption_detected);
                 }
 
@@ -566,7 +573,11 @@ size_t ZSTD_seekable_decompress(ZSTD_seekable* zs, void* dst, size_t len, unsign
             /* read in more data if we're done with this buffer */
             if (zs->in.pos == zs->in.size) {
                 toRead = MIN(toRead, SEEKABLE_BUFF_SIZE);
-                CHECK_IO(zs->src.read(zs->src.opaque, zs->inBuff, toRead));
+                if (zs->src.read(zs->src.opaque, zs->inBuff, toRead) < 0) {
+                    /* the position of the source is unknown after a failed read */
+                    zs->curFrame = (U32)-1;
+                    return ERROR(seekableIO);
+                }
                 zs->in.size = toRead;
                 zs->in.pos = 0;
             }
